@@ -15,7 +15,7 @@ import (
 )
 
 type op struct {
-	kind string // append | set | read | len | callee-read | append-in-if | append-in-while
+	kind string // append | set | read | len | callee-read | append-in-if | append-in-while | reassign-call | reassign-lit
 	idx  int64
 }
 
@@ -51,9 +51,15 @@ func histories(start, depth int) [][]op {
 		if len(h) == depth {
 			return
 		}
-		for _, kind := range []string{"append", "append-in-if", "append-in-while", "len"} {
+		for _, kind := range []string{"append", "append-in-if", "append-in-while", "len", "reassign-call", "reassign-lit"} {
 			nn := n
-			if kind != "len" {
+			switch kind {
+			case "len":
+			case "reassign-call":
+				nn = 3 // a fresh array built by a callee: one literal element and two appends
+			case "reassign-lit":
+				nn = 1
+			default:
 				nn++
 			}
 			rec(append(h, op{kind: kind}), nn)
@@ -142,6 +148,18 @@ func build(start int, h []op, form string, ek elemKind, sfx string) *fl.Program 
 			next++
 			w := fmt.Sprintf("w%d", step)
 			body = append(body, &fl.Let{Name: w, T: fl.I32, Init: fl.L(fl.I32, 0)}, &fl.While{Cond: fl.B("<", fl.V(w), fl.L(fl.I32, 1)), Body: []fl.Stmt{&fl.Append{Arr: d, Val: ek.val(t, next)}, &fl.IncDec{LHS: fl.V(w), Inc: true}}})
+		case "reassign-call":
+			// plain assignment from a call: what the compiler knew about the old value's length
+			// (a literal's) says nothing about the new one
+			next += 3
+			fn := fmt.Sprintf("mk%d%s", step, sfx)
+			p.Funcs = append(p.Funcs, &fl.Func{Name: fn, Ret: fl.TDyn{Elem: t}, Body: []fl.Stmt{
+				&fl.Let{Name: "r", T: fl.TDyn{Elem: t}, Init: &fl.ArrLit{Elems: []fl.Expr{ek.val(t, next-2)}}},
+				&fl.Append{Arr: fl.V("r"), Val: ek.val(t, next-1)}, &fl.Append{Arr: fl.V("r"), Val: ek.val(t, next)}, &fl.Return{X: fl.V("r")}}})
+			body = append(body, &fl.Assign{LHS: d, RHS: fl.C(fn)})
+		case "reassign-lit":
+			next++
+			body = append(body, &fl.Assign{LHS: d, RHS: &fl.ArrLit{Elems: []fl.Expr{ek.val(t, next)}}})
 		case "len":
 			body = append(body, fl.P(&fl.Len{X: d}))
 		case "read":
@@ -175,12 +193,18 @@ func hid(h []op) string {
 // everyExecutionOOB: the last access is out of range whatever happens, and no append
 // precedes it (then a compile-time rejection T0009 is acceptable).
 func noAppendBefore(h []op) bool {
+	// the length is known at compile time when the array still is exactly a literal: from the
+	// declaration or from the last `d = [..]`, with no append and no assignment from a call since
+	known := true
 	for _, o := range h[:len(h)-1] {
-		if strings.HasPrefix(o.kind, "append") {
-			return false
+		switch {
+		case strings.HasPrefix(o.kind, "append"), o.kind == "reassign-call":
+			known = false
+		case o.kind == "reassign-lit":
+			known = true
 		}
 	}
-	return true
+	return known
 }
 
 func Run(c *vl.Ctx) {
